@@ -739,6 +739,44 @@ class Evaluator:
             raise OutOfSubset('dict literal without a type hint (contract `locals`)')
         return V(hint, hint.mk(z3.K(hint.k.sort(), False), fresh('dflt', z3.ArraySort(hint.k.sort(), hint.v.sort()))))
 
+    def ev_DictComp(self, n, ctx):
+        """{k: f(k, v) for k, v in d.items() [if c(k, v)]}: same keys (those satisfying c), values mapped -- key expression must be k itself"""
+        if len(n.generators) != 1:
+            raise OutOfSubset('dict comprehension with several generators')
+        g = n.generators[0]
+        it = g.iter
+        if not (isinstance(it, ast.Call) and isinstance(it.func, ast.Attribute) and it.func.attr == 'items' and not it.args
+                and isinstance(g.target, ast.Tuple) and len(g.target.elts) == 2 and all(isinstance(t, ast.Name) for t in g.target.elts)
+                and isinstance(n.key, ast.Name) and n.key.id == g.target.elts[0].id):
+            raise OutOfSubset('dict comprehension form')
+        src = self.unwrap_opt(self.ev(it.func.value, ctx), ctx, 'AttributeError')
+        if not isinstance(src.ty, TDict):
+            raise OutOfSubset(f'dict comprehension over {src.ty}')
+        dt = src.ty
+        e = fresh('key', dt.k.sort())
+        saved = dict(ctx.env)
+        ctx.env[g.target.elts[0].id] = V(dt.k, e)
+        ctx.env[g.target.elts[1].id] = V(dt.v, z3.Select(dt.at(src.t), e))
+        n_as, n_ex = len(ctx.assumes), len(ctx.excs)
+        saved_g = list(ctx.guards)
+        ctx.guards.append(z3.Select(dt.has(src.t), e))
+        conds = []
+        for c_ in g.ifs:
+            t_ = truthy(self.ev(c_, ctx))
+            conds.append(t_)
+            ctx.guards.append(t_)
+        val = self.ev(n.value, ctx)
+        ctx.guards[:] = saved_g
+        self.engine._close_assumes(ctx, n_as, [e], n_ex)
+        ctx.env.clear()
+        ctx.env.update(saved)
+        rt = TDict(dt.k, val.ty)
+        R = fresh('dcomp', rt.sort())
+        cond = z3.And(*conds) if conds else z3.BoolVal(True)
+        ctx.assume(z3.ForAll([e], z3.Select(rt.has(R), e) == z3.And(z3.Select(dt.has(src.t), e), cond)))
+        ctx.assume(z3.ForAll([e], z3.Implies(z3.Select(rt.has(R), e), z3.Select(rt.at(R), e) == val.t)))
+        return V(rt, R)
+
     def ev_Lambda(self, n, ctx):
         raise OutOfSubset('lambda outside a modelled position')
 
